@@ -2256,3 +2256,83 @@ def mixed_between(a: uint256, b: uint256) -> uint256:
     self.t = 0
     return r
 ''', min_evm="cancun")
+
+
+# --- range-narrowed arithmetic: operands narrowed by % & min / comparisons / asserts, then + - * on them.  The optimiser may
+#     drop overflow checks only when the ranges prove them redundant; inputs around the narrowing bounds decide. ---
+_add("range_narrowing", '''
+event R:
+    v: uint256
+
+last: public(uint256)
+
+@external
+def sub_mod(a: uint256, b: uint256) -> uint256:
+    r: uint256 = (a % 100) - (b % 50)
+    self.last = r
+    return r
+
+@external
+def sub_mod_small(a: uint256, b: uint256) -> uint256:
+    return (a % 7) - (b % 7)
+
+@external
+def sub_and(a: uint256, b: uint256) -> uint256:
+    return (a & 255) - (b & 127)
+
+@external
+def sub_min(a: uint256, b: uint256) -> uint256:
+    return min(a, 1000) - min(b, 10)
+
+@external
+def sub_guard(a: uint256, b: uint256) -> uint256:
+    if a < 128 and b <= 256:
+        return a - b
+    return 0
+
+@external
+def sub_assert(a: uint256, b: uint256) -> uint256:
+    assert a < 100
+    assert b < 50
+    return a - b
+
+@external
+def sub_ge_guard(a: uint256, b: uint256) -> uint256:
+    if a >= b:
+        return a - b
+    return b - a
+
+@external
+def add_mod_u8(a: uint8, b: uint8) -> uint8:
+    return (a % 200) + (b % 100)
+
+@external
+def mul_mod_u8(a: uint8, b: uint8) -> uint8:
+    return (a % 20) * (b % 20)
+
+@external
+def sub_signed(a: int128, b: int128) -> int128:
+    return (a % 100) - (b % 50)
+
+@external
+def sub_signed_guard(a: int256, b: int256) -> int256:
+    if a > -10 and a < 10 and b > -5:
+        return a - b
+    return 0
+
+@external
+def add_signed_i8(a: int8, b: int8) -> int8:
+    return (a % 100) + (b % 100)
+
+@external
+def loop_sub(a: uint256, n: uint256) -> uint256:
+    x: uint256 = a % 10
+    for i: uint256 in range(n % 5, bound=5):
+        x = x - (i % 3)
+        log R(v=x)
+    return x
+
+@external
+def sub_convert(a: uint8, b: uint16) -> uint256:
+    return convert(a, uint256) - convert(b, uint256)
+''')
